@@ -351,6 +351,15 @@ def fam_c12(tier, seed):
         for k in ("B", "S"):
             items.append((l + [[k, "A", last + 31]], len(l)))
     sks = []
+    # a long ledger kept security by security (each block chronological, the file as a whole not): 32 + 1 lines and 36 + 1 lines.
+    # Same-day BUY / SELL / BUY lines within 30 days after a SELL make the order of same-day lines matter for cost, so the
+    # date sort has to keep it (prices symbolic, quantities concrete: no path explosion)
+    for extra in (0, 4):
+        long = [["B", "A", 0], ["S", "A", 50], ["B", "A", 60], ["S", "A", 60], ["B", "A", 60]]
+        long += [["B", "B", -700 + 30 * k] for k in range(20 + extra)] + [["B", "C", -400 + 30 * k] for k in range(7)]
+        long.append(["S", "B", 130])
+        sks.append(mk(len(sks), "L", long, base="2023-01-10", wit=1, prefix=len(long) - 1, mode="P"))
+        sks.append(mk(len(sks), "L", long, base="2023-01-10", wit=1, prefix=len(long) - 1, mode="P", level="report"))
     for i, (l, n) in enumerate(items):
         sks.append(mk(i, "m", l, wit=WIT, prefix=n))
     j = 0
